@@ -40,9 +40,36 @@ func (c *chunkyReader) Read(p []byte) (int, error) {
 	return c.r.Read(p)
 }
 
-// wrapSource returns the stream as one of three reader kinds.
+// eagerEOF is a non-seekable io.Reader + io.ByteReader that reports io.EOF
+// together with the last bytes (allowed by the io.Reader contract).
+type eagerEOF struct {
+	b   []byte
+	pos int
+}
+
+func (e *eagerEOF) Read(p []byte) (int, error) {
+	n := copy(p, e.b[e.pos:])
+	e.pos += n
+	if e.pos >= len(e.b) {
+		return n, io.EOF
+	}
+	return n, nil
+}
+
+func (e *eagerEOF) ReadByte() (byte, error) {
+	if e.pos >= len(e.b) {
+		return 0, io.EOF
+	}
+	c := e.b[e.pos]
+	e.pos++
+	return c, nil
+}
+
+// wrapSource returns the stream as one of four reader kinds.
 func wrapSource(b []byte, kind int, rng *rand.Rand) io.Reader {
 	switch kind {
+	case 3:
+		return &eagerEOF{b: b}
 	case 1:
 		return onlyReader{bytes.NewReader(b)}
 	case 2:
@@ -57,7 +84,13 @@ func runScript(w *bgzf.Writer, s gen.Script, payloads [][]byte) error {
 	for i, op := range s.Ops {
 		switch op.Op {
 		case 'W':
-			n, err := w.Write(payloads[i])
+			// io.Writer must not retain p: hand over a scratch copy and
+			// overwrite it as soon as Write has returned.
+			scratch := append([]byte(nil), payloads[i]...)
+			n, err := w.Write(scratch)
+			for k := range scratch {
+				scratch[k] ^= 0x5a
+			}
 			if err != nil {
 				return fmt.Errorf("op %d Write(%d bytes): %v", i, op.Len, err)
 			}
